@@ -61,6 +61,12 @@ func fullConfig(engine, version string) map[string]any {
 		map[string]any{"description": "oidc", "name": "s3", "type": "openIdConnect", "openIdConnectUrl": "https://id.example.com/.well-known/openid-configuration"},
 		map[string]any{"description": "oauth", "name": "s4", "type": "oauth2",
 			"flows": map[string]any{"authorizationCode": map[string]any{"authorizationUrl": "https://id.example.com/auth", "tokenUrl": "https://id.example.com/token", "scopes": map[string]any{"read": "read things"}}}},
+		// further OAuth2 schemes, each with other flow kinds: nothing of one scheme may show up under another
+		map[string]any{"description": "oauth implicit", "name": "s5", "type": "oauth2",
+			"flows": map[string]any{"implicit": map[string]any{"authorizationUrl": "https://id2.example.com/auth", "scopes": map[string]any{"write": "write things", "read": "read other things"}}}},
+		map[string]any{"description": "oauth machine", "name": "s6", "type": "oauth2",
+			"flows": map[string]any{"clientCredentials": map[string]any{"tokenUrl": "https://id3.example.com/token", "scopes": map[string]any{}},
+				"password": map[string]any{"tokenUrl": "https://id3.example.com/pw", "refreshUrl": "https://id3.example.com/refresh", "scopes": map[string]any{"admin": "everything"}}}},
 	})
 	return cfg
 }
